@@ -102,3 +102,12 @@ class Plain(Config):
     """A plain configuration (donor of pre-tasks in the C14 mutation attempts)."""
 
     v: Param[int]
+
+
+class PTask(T):
+    """A task whose output is one of its own parameters (marked as produced by the task)."""
+
+    m: Param[Plain]
+
+    def task_outputs(self, dep: Callable[[Config], None]) -> Any:
+        return dep(self.m)
